@@ -299,7 +299,7 @@ func genC20(g GenCtx) interface{} {
 			inflight = 0
 		}
 	}
-	sc.Sim = SimCfg{Strategy: randStrategy(rng, libGoroutines), PermuteMaps: true, MaxSteps: 800000, EstSteps: 4000}
+	sc.Sim = SimCfg{Strategy: randStrategy(rng, libGoroutines), PermuteMaps: true, MaxSteps: 150000, EstSteps: 4000}
 	if small {
 		// a starved stage would overflow a 2-slot buffer on its own
 		sc.Sim.Strategy = detsim.Strategy{Kind: "uniform"}
